@@ -387,8 +387,8 @@ class Gen:
             out.append(st)
         return out
 
-    def program(self, n):
-        return self.steps(0, n)
+    def program(self, n, depth=0):
+        return self.steps(depth, n)
 
 
 PROBE_NAMES = " ".join(NAMES)
@@ -592,6 +592,12 @@ def run(ctx):
     corpus = load_corpus()
     run_api(ctx, corpus)
     run_programs(ctx, corpus)
+    run_sweep(ctx)
+    ctx.cov["sweep"] = ("W: a seeded sample of guarded programs (main steps valid inside and outside functions) re-run as identical text under "
+                        "brush and bash in the contexts %s; under the neutral options %s; and under %s with bash in the same mode as oracle; "
+                        "observers at every function end and at the end: declare -p by name, plain expansion, the no-name listings declare -p / set / "
+                        "export -p / readonly -p / local -p, env and printenv in a child, ${!prefix@}, compgen -v, [[ -v ]], unset-then-reread in a subshell"
+                        % (", ".join(W_CONTEXTS), ", ".join(W_NEUTRAL), ", ".join(W_CHANGING)))
     ctx.cov["rule"] = ("E: every (initial variable x single writer op) pair in five scope contexts and every lookup policy x creation scope "
                        "on a five-deep scope stack (seed independent), plus seeded random op sequences (length 4-24) over "
                        "push/pop/unset/unset_index/update_or_add/update_or_add_array_element/add on names {x,a}, dumped after every op; "
@@ -783,9 +789,426 @@ def check_programs(ctx, progs, verbose=False, clause_of=None):
     return rc
 
 
+
+# ------------------------------------------------------------------------------------------------
+# W: context sweep.  A sample of guarded programs is re-run, as identical script text under brush and
+# bash, in every execution context and under every option that must not matter (or with bash under the
+# same option as the oracle where it legitimately matters), observed through every observer.
+
+W_NAMES = ["x", "y", "a", "m", "t", "u"]
+W_RE = "|".join(W_NAMES)
+W_PRELUDE = r"""
+Q() { echo '#P'; declare -p x y a m t u 2>/dev/null; echo "#pl|x=${x-U}|y=${y-U}|t=${t-U}|u=${u-U}|a0=${a[0]-U}|an=${#a[@]}|mk=${m[k]-U}|mn=${#m[@]}"; echo '#Z'; }
+R() {
+echo '#R'
+echo '#decl'; declare -p x y a m t u 2>/dev/null
+echo "#pl|x=${x-U}|y=${y-U}|t=${t-U}|u=${u-U}|a0=${a[0]-U}|an=${#a[@]}|mk=${m[k]-U}|mn=${#m[@]}"
+echo '#all'; declare -p
+echo '#set'; set
+echo '#exp'; export -p
+echo '#ro'; readonly -p
+echo '#env'; env
+echo '#penv'; printenv x y t u; echo "rc=$?"
+echo '#pfx'; echo "${!x@}|${!y@}|${!a@}|${!m@}|${!t@}|${!u@}"
+echo '#cg'; compgen -v
+echo '#tv'; for _n in x y a m t u; do [[ -v $_n ]] && echo "$_n"; done
+echo '#un'; for _n in x y a m t u; do ( unset $_n 2>/dev/null; eval "echo \"$_n=\${$_n-U}\"" ); done
+echo '#Z'
+}
+"""
+
+
+def w_act(sh, ops, k):
+    return {"sh": sh, "ops": ops, "k": k}
+
+
+W_GLOBALS = [w_act("x=gx", ["as:x:-:sgx:-"], "assign"), w_act("y=gy", ["as:y:-:sgy:-"], "assign"), w_act("t=gt", ["as:t:-:sgt:-"], "assign")]
+W_LOCALS = [w_act("local x=lx", ["pu:c", "de:x:-:l:slx:f", "po:c"], "local"), w_act("local y=ly", ["pu:c", "de:y:-:l:sly:f", "po:c"], "local"),
+            w_act("local -a a=(la)", ["pu:c", "de:a:a:l:A-=la:fn", "po:c"], "local")]
+ABORTING = ("assign", "elem", "for", "arith", "default")   # a failed write of these kinds aborts the enclosing function / compound command in brush
+
+
+def w_render(steps, funs_out, path=()):
+    """lines of a sweep program: cheap probe `Q` after every step, rich probe `R` at the end of every function body"""
+    lines = []
+    for i, st in enumerate(steps):
+        if "call" in st:
+            blines = w_render(st["body"], funs_out, path + (i,))
+            funs_out.append("%s() {\n%s\necho '#lp'; local -p; echo '#Z'\nR\n}" % (st["call"], "\n".join(blines)))
+            pre = st["pre"]
+            lines.append(((pre[2] + " ") if pre else "") + st["call"])
+        elif "probe_pre" in st:
+            lines.append("%s Q" % st["probe_pre"][2])
+            continue
+        else:
+            lines.append(st["sh"])
+        lines.append("Q")
+    return lines
+
+
+def prune_ids(steps, bad):
+    out = []
+    for st in steps:
+        if id(st) in bad:
+            continue
+        if "call" in st:
+            body = prune_ids(st["body"], bad) or [{"sh": ":", "ops": ["pu:c", "po:c"], "k": "noop"}]
+            st = dict(st, body=body)
+        out.append(st)
+    return out
+
+
+def w_failing(progs):
+    """ids of the steps whose write the model says fails in one of the sweep's three state configurations
+    (top level; inside a function whose locals hide globals; second run in the same shell)"""
+    cfgs = []
+    for steps in progs:
+        cfgs.append(steps)
+        cfgs.append(W_GLOBALS + [{"call": "w1", "k": "call", "pre": None, "body": W_LOCALS + steps}])
+        cfgs.append(steps + steps)
+    flat = [script_of(c, "S")[1] for c in cfgs]
+    ms = lib.run_drv_parallel(["C09 " + " ".join(ops) for ops in flat], workers=8)
+    bads, dirty = [], []
+    for i, steps in enumerate(progs):
+        bad, anyfail = set(), False
+        for c, m in zip(cfgs[3 * i:3 * i + 3], ms[3 * i:3 * i + 3]):
+            for (p, depth, st), d in zip(step_paths(c), m.split(" | ")):
+                if d.startswith("S=0"):
+                    anyfail = True
+                    if st.get("k") in ABORTING:
+                        bad.add(id(st))
+        bads.append(bad)
+        dirty.append(anyfail)
+    return bads, dirty
+
+
+def w_program(rng):
+    g = Gen(random.Random(rng.getrandbits(48)), features=("safe",))
+    g.locs |= {"x", "y", "a"}                 # the function contexts declare these local
+    g.bound |= {"x", "y", "t"}
+    # the main steps also run outside any function: no `local` there (`local v=(…)` at top level fails in both shells,
+    # but bash still performs the compound assignment)
+    return [st for st in g.program(rng.randint(3, 8), depth=1) if st.get("k") != "local"] or [w_act("x=1", ["as:x:-:s1:-"], "assign")]
+
+
+def heredoc(text):
+    """the text as a command substitution of a quoted here-document (no variable holds it: `set` would list its lines)"""
+    return "\"$(cat <<'CTXEOF'\n%s\nCTXEOF\n)\"" % text
+
+
+W_CONTEXTS = ["top", "fn", "fn2", "fn3rec", "subshell", "cmdsub", "pipe-stage", "eval", "brace-redirect", "lastpipe", "for-body", "while-body",
+              "trap-exit", "sourced", "twice"]
+# options that must not change anything for these programs
+W_NEUTRAL = ["set -u", "set -f", "set -E", "set -T", "set +h", "set -C", "shopt -s extglob", "shopt -s nullglob", "shopt -s dotglob",
+             "shopt -s nocasematch", "shopt -s globstar", "shopt -s expand_aliases", "shopt -s inherit_errexit", "shopt -s lastpipe"]
+# options that legitimately change the result: bash under the same option is the oracle
+W_CHANGING = ["set -a", "set -o posix"]
+
+
+def w_script(defs, main, context, option=None):
+    body = "\n".join(main)
+    loc = "\n".join(st["sh"] for st in W_LOCALS)
+    glob = "\n".join(st["sh"] for st in W_GLOBALS)
+    pre = W_PRELUDE + (option + "\n" if option else "") + "\n".join(defs) + "\n"
+    if context == "top":
+        return pre + body + "\nR\n"
+    if context == "fn":
+        return pre + glob + "\nw1() {\n%s\n%s\necho '#lp'; local -p; echo '#Z'\nR\n}\nw1\nR\n" % (loc, body)
+    if context == "fn2":
+        return pre + glob + "\nw1() {\n%s\n%s\nR\n}\nw2() {\nlocal t=l2\nw1\nR\n}\nw2\nR\n" % (loc, body)
+    if context == "fn3rec":
+        return pre + glob + ("\nw1() {\nif (( $1 > 0 )); then\nlocal u=r$1\nw1 $(( $1 - 1 ))\nR\nreturn\nfi\n%s\n%s\nR\n}\nw3() {\nw1 2\n}\nw3\nR\n" % (loc, body))
+    if context == "subshell":
+        return pre + glob + "\n(\n%s\nR\n)\nR\n" % body
+    if context == "cmdsub":
+        return pre + glob + "\n_o=$(\n%s\nR\n)\necho \"$_o\"\nR\n" % body
+    if context == "pipe-stage":
+        return pre + glob + "\n{\n%s\nR\n} | cat\nR\n" % body
+    if context == "eval":
+        return pre + "eval " + heredoc(body) + "\nR\n"
+    if context == "brace-redirect":
+        return pre + "{\n%s\n} 3>&1\nR\n" % body
+    if context == "lastpipe":
+        return pre + "shopt -s lastpipe\ntrue | {\n%s\n}\nR\n" % body
+    if context == "for-body":
+        return pre + "for _i in 1; do\n%s\ndone\nR\n" % body
+    if context == "while-body":
+        return pre + "_k=0\nwhile (( _k < 1 )); do\n_k=1\n%s\ndone\nR\n" % body
+    if context == "trap-exit":
+        return pre + "trap " + heredoc(body + "\nR") + " EXIT\n"
+    if context == "sourced":
+        return pre + "_f=$(mktemp)\ncat > \"$_f\" <<'CTXEOF'\n%s\nCTXEOF\n. \"$_f\"\nrm -f \"$_f\"\nR\n" % body
+    if context == "twice":
+        return pre + body + "\nR\n" + body + "\nR\n"
+    raise ValueError(context)
+
+
+SET_LINE = re.compile(r"^(%s)=(.*)$" % W_RE)
+ALL_LINE = re.compile(r"^declare -\S+ (%s)(=|$)" % W_RE)
+
+
+def norm_set(line):
+    m = SET_LINE.match(line)
+    if not m:
+        return None
+    n, v = m.groups()
+    if v.startswith("("):
+        items = ITEM.findall(v)
+        v = "(" + " ".join("[%s]=%s" % kv for kv in sorted(items)) + ")"
+    elif len(v) >= 2 and v[0] == "'" and v[-1] == "'":
+        v = v[1:-1]
+    return n + "=" + v
+
+
+def w_parse(out):
+    """stdout -> list of (kind, canonical text) observation blocks in order"""
+    blocks, cur, sec = [], None, None
+    for line in out.split("\n"):
+        if line in ("#P", "#R", "#lp"):
+            cur, sec = {"_": line}, ("decl" if line == "#P" else "lp" if line == "#lp" else None)
+            continue
+        if cur is None:
+            continue
+        if line == "#Z":
+            blocks.append(cur)
+            cur, sec = None, None
+            continue
+        if line.startswith("#pl|"):
+            cur["pl"] = line
+            continue
+        if line.startswith("#") and line[1:] in ("decl", "all", "set", "exp", "ro", "env", "penv", "pfx", "cg", "tv", "un"):
+            sec = line[1:]
+            continue
+        if sec is None:
+            continue
+        if sec in ("decl", "lp", "exp", "ro"):
+            c = canon_decl(line)
+            if c and c[0] in W_NAMES:
+                cur.setdefault(sec, []).append("%s=%s" % c)
+        elif sec == "all":
+            if ALL_LINE.match(line):
+                c = canon_decl(line)
+                if c:
+                    cur.setdefault(sec, []).append("%s=%s" % c)
+        elif sec == "set":
+            c = norm_set(line)
+            if c:
+                cur.setdefault(sec, []).append(c)
+        elif sec == "env":
+            k, sep, v = line.partition("=")
+            if sep and k in W_NAMES:
+                cur.setdefault(sec, []).append(line)
+        elif sec == "cg":
+            if line in W_NAMES:
+                cur.setdefault(sec, []).append(line)
+        else:
+            cur.setdefault(sec, []).append(line)
+    for b in blocks:
+        for k in ("decl", "lp", "exp", "ro", "all", "set", "env", "cg"):
+            if k in b:
+                b[k] = sorted(b[k])
+    return blocks
+
+
+def w_diff(bb, bo):
+    """every differing observation, in order: (block index, observer, brush, bash)"""
+    out = []
+    for i in range(max(len(bb), len(bo))):
+        if i >= len(bb) or i >= len(bo):
+            out.append((i, "missing-probe", "%d probes" % len(bb), "%d probes" % len(bo)))
+            break
+        x, y = bb[i], bo[i]
+        for k in sorted(set(x) | set(y)):
+            if x.get(k) != y.get(k):
+                out.append((i, k, x.get(k), y.get(k)))
+    return out
+
+
+def run_sweep(ctx, only=None):
+    rng = random.Random(ctx.rng.getrandbits(48))
+    nprog = ctx.size(24, 150)
+    progs = [w_program(rng) for _ in range(nprog)]
+    for _round in range(6):
+        bads, _ = w_failing(progs)
+        if not any(bads):
+            break
+        progs = [prune_ids(p, b) if b else p for p, b in zip(progs, bads)]
+    bads, dirty = w_failing(progs)
+    keep = [i for i, b in enumerate(bads) if not b]
+    progs, dirty = [progs[i] for i in keep], [dirty[i] for i in keep]
+    jobs = []
+    for steps, isdirty in zip(progs, dirty):
+        defs = []
+        main = w_render(steps, defs)
+        if ctx.quick:
+            ctxs = W_CONTEXTS
+            opts = rng.sample(W_NEUTRAL, 4) + W_CHANGING
+        else:
+            ctxs, opts = W_CONTEXTS, W_NEUTRAL + W_CHANGING
+        for c in ctxs:
+            if c == "twice" and w_has_readonly(steps):
+                continue            # the second run would start with readonly variables: refused declarations, where bash keeps some attributes
+            jobs.append((steps, c, None, w_script(defs, main, c)))
+        for o in opts:
+            d2, m2 = defs, main
+            if o == "set -a" and w_allexport_quirk(steps):
+                continue
+            if o == "set -o posix":
+                if isdirty or w_has_readonly(steps):
+                    continue        # POSIX mode: any refused write (even by a builtin or a prefix assignment) ends bash; error flow, not scoping
+                d2 = []
+                m2 = w_render(w_drop_special(steps), d2)
+            for c in (("top", "fn") if ctx.quick else ("top", "fn", "fn3rec", "eval")):
+                jobs.append((steps, c, o, w_script(d2, m2, c, o)))
+    if only:
+        jobs = [j for j in jobs if only(j)]
+    res = lib.pmap(lambda j: lib.run_both(j[3], mode="file", timeout=30), jobs, workers=8)
+    nshown = 0
+    for (steps, c, o, script), (rb, ro) in zip(jobs, res):
+        tag = "sweep_ctx_" + c if o is None else "sweep_opt_" + o.replace(" ", "_")
+        ctx.count(("W", script), nontrivial=True, bucket=tag)
+        case = {"mode": "W", "context": c, "option": o, "script": script}
+        if rb["timeout"] or lib.is_panic(rb):
+            ctx.violation("brush timed out / panicked in context %s option %s" % (c, o), dict(case, brush_stderr=rb["err"][-300:]))
+            continue
+        pb, po = w_parse(rb["out"]), w_parse(ro["out"])
+        if o == "set -o posix":
+            # in POSIX mode bash lists as `export n=v` / `readonly n=v`; brush keeps the `declare -x` form (a format, not a scope matter)
+            for blk in pb + po:
+                blk.pop("exp", None)
+                blk.pop("ro", None)
+                blk.pop("un", None)     # a refused `unset` (readonly) ends brush's subshell in POSIX mode but not bash's: error flow, not scoping
+        for i, obs, xb, xo in w_diff(pb, po):
+            what = "context sweep [%s%s]: observer `%s` at probe %d differs: brush %s, bash %s" % (c, (", " + o) if o else "", obs, i, xb, xo)
+            cl = w_classify(c, o, obs, xb, xo, pb[i] if i < len(pb) else {}, po[i] if i < len(po) else {})
+            if cl:
+                ctx.known_or_violation(cl, what, case)      # a recorded class explains this observation; the others are still compared
+                continue
+            if nshown < 10:
+                nshown += 1
+                ctx.violation(what, dict(case, observer=obs, probe=i, brush=xb, bash=xo, brush_stderr=rb["err"][-300:], bash_stderr=ro["err"][-300:]))
+            break
+    for clause, script in W_WITNESSES:
+        rb, ro = lib.run_both(script, timeout=20)
+        ctx.count(("W-witness", script), nontrivial=True, bucket="sweep_witness")
+        if (rb["out"], rb["rc"] == 0) != (ro["out"], ro["rc"] == 0):
+            ctx.known_or_violation(clause, "witness of %s: brush %r, bash %r" % (clause, rb["out"], ro["out"]),
+                                   {"mode": "W", "context": "witness", "option": None, "script": script})
+    ctx.sample({"mode": "W", "context": jobs[0][1], "script": jobs[0][3][-600:]} if jobs else {"mode": "W"})
+    return len(jobs)
+
+
+W_CLAUSES = ["export_p_prints_array_as_scalar", "allexport_not_applied_by_builtin_writers", "posix_special_builtin_assignment_not_persistent",
+             "declared_unset_variable_enumerated", "test_v_on_array", "nameref_not_followed", "local_dash_not_implemented",
+             "local_I_not_implemented", "attribute_listing_without_p_format"]
+
+# fixed witnesses of the defect classes the sweep met (brush vs bash on identical text)
+W_WITNESSES = [
+    ("export_p_prints_array_as_scalar", "a=(4 5); export a; export -p | grep ' a='"),
+    ("allexport_not_applied_by_builtin_writers",
+     "set -a; read r <<< 1; for f in 1; do :; done; printf -v p %s 1; (( q = 3 )); : ${d:=4}; OPTIND=1; getopts o g -o; declare -p r f p q d g"),
+    ("posix_special_builtin_assignment_not_persistent", "set -o posix; u=1 :; echo \"u=${u-U}\"; v=1 eval :; echo \"v=${v-U}\"; y=1 export y2; echo \"y=${y-U}\""),
+    ("declared_unset_variable_enumerated", "f() { local z; echo \"[${!z@}]\"; compgen -v | grep -x z; }; f; export q; echo \"[${!q@}]\"; compgen -e | grep -x q"),
+    ("test_v_on_array", "a=(1 2); declare -A m=([k]=v); [[ -v m ]] && echo m; [[ -v a[1] ]] && echo a1; [[ -v m[k] ]] && echo mk; b=([1]=x); [[ -v b ]] && echo b"),
+    # namerefs across scopes: not followed at all by brush (only the attribute is stored)
+    ("nameref_not_followed", "f() { local -n ref=$1; ref=set-by-f; }; v=old; f v; echo \"$v\"; g() { local v=loc; f v; echo \"g:$v\"; }; g; echo \"top:$v\"; "
+                             "x=1; declare -n r=x; echo \"$r\"; r=2; echo \"$x\""),
+    ("local_dash_not_implemented", "f() { local -; set -u; }; f; case $- in *u*) echo leaked;; *) echo restored;; esac"),
+    ("local_I_not_implemented", "x=1; f() { local -I x; echo \"$x\"; x=2; }; f; echo \"$x\""),
+    ("attribute_listing_without_p_format", "q=lq; export q; declare -x | grep -E '(^| )q='; f() { local z=1; local | grep z; }; f"),
+]
+
+
+def w_entries(v):
+    return dict(e.split("=", 1) for e in (v or []) if "=" in e) if isinstance(v, list) else {}
+
+
+def w_classify(context, option, obs, xb, xo, blk_b, blk_o):
+    """defect classes met by the sweep, recognised by the observer that shows them and the shape of the difference"""
+    eb, eo = w_entries(xb), w_entries(xo)
+    diff = [n for n in set(eb) | set(eo) if eb.get(n) != eo.get(n)]
+    view = w_entries(blk_o.get("decl") or blk_o.get("all"))          # bash's own view of the variables at this probe
+    if obs == "exp":
+        # (repaired in /repo, kept as a tripwire) `export -p` printed an exported array as a scalar: the name is in both
+        # listings, brush shows a string where bash shows `declare -ax a=(…)`
+        if diff and all(n in eo and n in eb and eo[n].split("~")[1][:1] in ("I", "M") and eb[n].split("~")[1][:1] == "s" for n in diff):
+            return "export_p_prints_array_as_scalar"
+    if option == "set -a":
+        # allexport: only the assignment statement and declare/local/export apply it; read / for / printf -v / (( )) /
+        # ${v:=} / getopts / mapfile leave the variable unexported
+        if obs in ("decl", "all", "lp", "ro"):
+            strip = lambda d: {n: (v.split("~")[0].replace("x", "") or "-") + "~" + v.split("~", 1)[1] for n, v in d.items() if "~" in v}
+            if strip(eb) == strip(eo):
+                return "allexport_not_applied_by_builtin_writers"
+        if obs in ("exp", "env", "penv"):
+            # …so the exported set (and which binding of a name reaches a child) differs accordingly
+            return "allexport_not_applied_by_builtin_writers"
+    if obs in ("pfx", "cg"):
+        # `${!prefix@}` / `compgen -v` list variables that are declared but unset (bash leaves them out)
+        if obs == "cg":
+            extra = set(xb or []) - set(xo or [])
+            ok = set(xo or []) <= set(xb or [])
+        else:
+            wb = [w for w in "".join(xb or []).split("|")]
+            wo = [w for w in "".join(xo or []).split("|")]
+            extra = set(w for w in wb if w) - set(w for w in wo if w)
+            ok = all(o in ("", b) for b, o in zip(wb, wo)) and len(wb) == len(wo)
+        if ok and extra and all(view.get(n, "").split("~")[-1] in ("U", "Ua", "UA") for n in extra):
+            return "declared_unset_variable_enumerated"
+    if obs == "tv":
+        # `[[ -v name ]]` on an array tests element 0 / key "0" in bash; brush answers for the whole array
+        d = set(xb or []) ^ set(xo or [])
+        if d and all(view.get(n, "").split("~")[-1][:1] in ("I", "M") or view.get(n, "").split("~")[-1] in ("Ua", "UA") for n in d):
+            return "test_v_on_array"
+    return None
+
+
+def w_has_readonly(steps):
+    """(or an element unset, whose refusal on a scalar also ends brush — but not bash — in POSIX mode)"""
+    return any((st.get("k") in ("readonly", "unset-elem") or " -r" in st.get("sh", "")) or ("call" in st and w_has_readonly(st["body"])) for st in steps)
+
+
+def w_allexport_quirk(steps):
+    """under `set -a` bash marks an array exported for `declare v=(…)` without -a (but not for `declare -a v=(…)` or `v=(…)`), and
+    does not for `(( v = n ))` on an array (but does for every other scalar write to it): inconsistencies kept out of the sweep"""
+    for st in steps:
+        sh = st.get("sh", "")
+        if st.get("k") in ("declare", "local", "readonly") and "(" in sh and " -a" not in sh and " -A" not in sh:
+            return True
+        if st.get("k") == "arith" and Gen.target(st) in ("a", "m"):
+            return True
+        if "call" in st and w_allexport_quirk(st["body"]):
+            return True
+    return False
+
+
+def w_drop_special(steps):
+    """without the temporary assignments on the special builtin `:` (POSIX mode: they persist in bash, recorded defect)"""
+    out = []
+    for st in steps:
+        if st.get("k") == "prefix-builtin" and st["sh"].endswith(" :"):
+            continue
+        if "call" in st:
+            st = dict(st, body=w_drop_special(st["body"]) or [{"sh": ":", "ops": ["pu:c", "po:c"], "k": "noop"}])
+        out.append(st)
+    return out
+
+
 def replay(ctx, rp):
     lib.cargo_build([BIN])
     case = rp["case"]
+    if case.get("mode") == "W":
+        rb, ro = lib.run_both(case["script"], mode="file", timeout=30)
+        pb, po = w_parse(rb["out"]), w_parse(ro["out"])
+        print(case["script"].replace(W_PRELUDE, "(probe functions Q, R)\n"))
+        ds = w_diff(pb, po) if case.get("context") != "witness" else ([(0, "output", rb["out"], ro["out"])] if rb["out"] != ro["out"] else [])
+        bad = 0
+        for i, obs, xb, xo in ds:
+            cl = w_classify(case.get("context"), case.get("option"), obs, xb, xo, pb[i] if i < len(pb) else {}, po[i] if i < len(po) else {}) \
+                if case.get("context") != "witness" else None
+            print("probe %d observer %s: brush %s | bash %s%s" % (i, obs, xb, xo, "  [%s]" % cl if cl else ""))
+            bad += 0 if (cl and cl in ctx.known) else 1
+        return 1 if bad else 0
     if case.get("mode") == "E":
         line = " ".join(with_probes(case["ops"]))
         _, b, _ = lib.run_vh(BIN, ["E " + line])
